@@ -153,15 +153,22 @@ def job_parallel_plates_shape(res, n, g):
     for pfx in ('_ZN5boost4math13airy_ai_prime', '_ZN5boost4math13airy_bi_prime', '_ZN5boost4math7airy_ai', '_ZN5boost4math7airy_bi',
                 '_ZN5boost4math6detail17airy_ai_prime_imp', '_ZN5boost4math6detail17airy_bi_prime_imp', '_ZN5boost4math6detail11airy_ai_imp', '_ZN5boost4math6detail11airy_bi_imp'): ex.ext_prefix.append((pfx, airy))
     sts = run_paths(ex, State(), 'e_parplates', [n, Fraction(f32(2.7e6)), Fraction(f32(1e12)), Fraction(g)]); account(res, ex, mod, sts)
-    for s1 in sts:
+    def shape(s1, nn, tag):
         v = s1.retval; size = ex.run1(s1, 'e_vsize', [v]).retval
-        res.obs.append(Ob('ParallelPlatesCSR n=%d gap %g: returns exactly %d samples (got %s)' % (n, g, n, size), 'holds' if size == n else 'violated', key='parallel-plates-length'))
-        if size != n: continue
-        z = read_z(ex, s1, ex.run1(s1, 'e_vdata', [v]).retval, n)
-        zero = [0] + list(range(n // 2 + 1, n))
-        prove(res, 'ParallelPlatesCSR n=%d gap %g: sample 0 and samples %d..%d (negative-frequency half) are exactly zero whatever the Airy functions return' % (n, g, n // 2 + 1, n - 1), s1.pc,
-              z3.Or(*[c != 0 for k in zero for c in z[k]]), key='parallel-plates-upper-zero', cex_fn=lambda m: {'replay': 'pp-shape', 'n': n, 'g': g})
-        witness(res, 'ParallelPlatesCSR n=%d: sample 1 depends on the Airy values (%d calls)' % (n, cnt[0]), s1.pc, z3.BoolVal(cnt[0] > 0 and not z3.is_rational_value(z3.simplify(z[1][0]))))
+        res.obs.append(Ob('ParallelPlatesCSR n=%d gap %g%s: returns exactly %d samples (got %s)' % (nn, g, tag, nn, size), 'holds' if size == nn else 'violated', key='parallel-plates-length',
+                          cex=None if size == nn else {'replay': 'pp-shape', 'n': nn, 'g': g, 'first_n': n if tag else 0}))
+        if size != nn: return
+        z = read_z(ex, s1, ex.run1(s1, 'e_vdata', [v]).retval, nn)
+        zero = [0] + list(range(nn // 2 + 1, nn))
+        prove(res, 'ParallelPlatesCSR n=%d gap %g%s: sample 0 and samples %d..%d (negative-frequency half) are exactly zero whatever the Airy functions return' % (nn, g, tag, nn // 2 + 1, nn - 1), s1.pc,
+              z3.Or(*[c != 0 for k in zero for c in z[k]]), key='parallel-plates-upper-zero', cex_fn=lambda m: {'replay': 'pp-shape', 'n': nn, 'g': g, 'first_n': n if tag else 0})
+        return z
+    for s1 in sts:
+        z = shape(s1, n, '')
+        if z is not None: witness(res, 'ParallelPlatesCSR n=%d: sample 1 depends on the Airy values (%d calls)' % (n, cnt[0]), s1.pc, z3.BoolVal(cnt[0] > 0 and not z3.is_rational_value(z3.simplify(z[1][0]))))
+        # a second request in the same process, same machine parameters, another sample count (main asks for the wake grid and then for the radiation grid): judged on its own
+        s1.frames = []
+        for s2 in run_paths(ex, s1, 'e_parplates', [n + 3, Fraction(f32(2.7e6)), Fraction(f32(1e12)), Fraction(g)]): shape(s2, n + 3, ' (second request of the process, after one for %d samples)' % n)
 
 READ_DATA = '_ZN4vfps9Impedance8readDataENSt7__cxx1112basic_stringIcSt11char_traitsIcESaIcEEE'
 def job_factory_file(res, n, L, gap_sign, wall):
@@ -219,10 +226,12 @@ def job_add(res, n):
 def replayer(bld):
     def rp(path, c):
         if c.get('replay') == 'pp-shape':
-            o = native_run(bld, {'n': c['n'], 'fmax': 1e12, 'R_bend': 5.559, 'frev': 2.7e6, 'gap': c['g'], 'use_csr': 1, 's': 0.0, 'xi': 0.0, 'coll': 0.0}, 'c16')
-            n = c['n']; mk = o.get('make') or []
+            spec = {'n': c['n'], 'fmax': 1e12, 'R_bend': 5.559, 'frev': 2.7e6, 'gap': c['g'], 'use_csr': 1, 's': 0.0, 'xi': 0.0, 'coll': 0.0, 'pp_direct': 1}
+            if c.get('first_n'): spec['first_n'] = c['first_n']
+            o = native_run(bld, spec, 'c16')
+            n = c['n']; mk = o.get('pp') or []
             nz = [k for k in [0] + list(range(n // 2 + 1, n)) if 2 * k + 1 < len(mk) and (mk[2 * k] != 0 or mk[2 * k + 1] != 0)]
-            return (bool(nz) or len(mk) != 2 * n, 'native parallel-plates impedance (through the factory): non-zero samples in the negative-frequency half at %s, %d values' % (nz, len(mk) // 2))
+            return (bool(nz) or len(mk) != 2 * n, 'native parallel-plates impedance%s: %d samples for %d requested, non-zero samples in the negative-frequency half at %s' % (' (second request of the process)' if c.get('first_n') else '', len(mk) // 2, n, nz))
         if c.get('replay') == 'make-file':
             n = c['n']; L = c['L']; tab = [float(v) for i in range(L) for v in (0.5 + i, -0.25 * i)]
             spec = {'n': n, 'fmax': 1e12, 'R_bend': 5.559, 'frev': 2.7e6, 'gap': 0.032 * (1 if c['gap_sign'] > 0 else -1 if c['gap_sign'] < 0 else 0), 'use_csr': 0, 's': 3.5e7 if c['wall'] else 0.0, 'xi': 0.0, 'coll': 0.0}
